@@ -4,12 +4,12 @@ import vlib
 
 PROP = "C13"
 NAMES = ('{"g", "inc", "withidx", "optidx", "restall", "restafter", "closure", "fact", "isev", "isod", "small", "first", "notbool", '
-         '"failing", "acc2", "acc3", "two", "x", "i", "j", "r", "a"}')
+         '"failing", "acc2", "acc3", "two", "x", "i", "j", "r", "a", "cb", "ys"}')
 
 
 def cfg(maxl):
     return ("SPECIFICATION Spec\nCONSTANTS Names = %s\n MaxDepth = 40\n MaxL = %d\nINVARIANT FormsAgree\nINVARIANT CallbackProtocol\n"
-            "INVARIANT EverySome\nINVARIANT ReduceIsLeftFold\nINVARIANT Emit\nCHECK_DEADLOCK FALSE\n" % (NAMES, maxl))
+            "INVARIANT EverySome\nINVARIANT ReduceIsLeftFold\nINVARIANT SiteIndependent\nINVARIANT Emit\nCHECK_DEADLOCK FALSE\n" % (NAMES, maxl))
 
 
 def check(tier, seed, t0):
